@@ -10,6 +10,7 @@ import KyupyVerif.Proofs.CycleNet
 import KyupyVerif.Proofs.CycleMem
 import KyupyVerif.Proofs.CycleRel
 import KyupyVerif.Proofs.CycleStrip
+import KyupyVerif.Proofs.NextStateSpec
 /-! # C01 — 2-valued logic simulation computes the netlist's Boolean function
 
 Generated from the working tree: `Gen.sem2n` (what `logic_sim._prop_cpu` computes for an op code),
@@ -20,6 +21,11 @@ Hand model tied by exact correspondence: `genOps`, `levelise`, `memMap` (Model/S
 Model/Cycle.lean (`Cycle.tabsOf`, `sToC`, `cToS`, `ppoToPpi`, `cycle1`, `cycleK`; array form `cycleKA` run by the driver).
 Memory level for ALL circuits: `logic_sim_end_to_end_all_circuits` (the map certificate is the theorem `C08.simops_map_accepted`).
 Specification: `formula`, `specPrimName`, `evalLine` (Model/Prim.lean, Model/Net.lean).
+ARITY DOMAIN (audit finding 1, known finding D33): specification (`lineEq`, `evalAll`) and simulator read input pins 0..3 of a gate; a
+gate with more connected inputs (bench `z = AND(a,b,c,d,e)`) is simulated as the 4-input primitive of its first four pins.  The
+theorems hold for every netlist; they say "the netlist's Boolean function" only inside `Net.arityOKB` (explicit in
+`logic_sim_end_to_end_all_circuits`); the harness evaluates `arityOKB` per case and its wide-gate oracle (n-ary ground truth in
+Python) reports D33.
 
 What is THEOREM for the sequential statement ("`cycle(k)` iterates the next-state function k times, primary-input rows of
 `s[0]` untouched"), for every well-formed netlist, every topological order, every value domain / op semantics (so also with
@@ -29,6 +35,9 @@ a pure injection callback folded into `sem`, C16), every `merge` (m = 2, 4: copy
   sets state rows of `s[0]` to `merge old s[1][p]`; `cycle_zero_slot`;
 * (7) `cycle_iter` — `s[0]` after `cycle(k)` = `N^k s[0]`, `N = Cycle.nextState` (defined by THE solution: (7') `nextState_unique`),
   port rows constant, `s[1]` = capture of the labelling of `N^(k-1) s[0]`; memory left by earlier cycles is irrelevant;
+* (7s) `nextState_is_spec` — `N` is the INDEPENDENT specification `KV.nextStateFrom` (ports keep, a state element takes the value of
+  its data line under any labelling the specification's `consistentB` accepts, an open data pin takes constant 0), `nextState_eq_from`
+  (the driver's `eval2` next state is that function of the `evalAll` labelling);
 * (7'') `cycle_array_form` — the driver's array form = the model;
 * (8) `cycle_on_memory`, (8') `cycle_end_to_end` — the loop ON MEMORY (`s_to_c` writes rows `c_locs[ppi_offset+p]`, real op rows on
   memory, `c_to_s` reads rows `c_locs[ppo_offset+p]`; any allocator, `c_reuse`, `strip_forks`) = the signal-level loop, under the
@@ -197,10 +206,14 @@ example : demoMap.ops = genOps Gen.kindPrefixes demoMap.net [0, 2, 1, 3, 4, 5, 6
     with or without `c_reuse`; equal to the real tables by exact correspondence) — the hypothesis "the map certificate
     accepts" is discharged by `C08.simops_map_accepted` (`simopsMap_accepted`). Remaining hypotheses are the domain
     predicates `Net.wfB`, `orderOKB`, `readsDrivenB` (every read or captured line is written by a row: known cell kinds),
-    evaluated by the driver on the real circuit and order. -/
+    evaluated by the driver on the real circuit and order — and `Net.arityOKB` (audit finding 1, known finding D33: at most four
+    input pin slots per gate; not used by the proof): the op rows `genOps` generates read pins 0..3 of a node, so only inside this
+    domain are "the netlist's gate equations" (`hval`) the equations of the gates as drawn; a gate with more input pins is simulated
+    as the 4-input primitive of its first four pins (`C11.wide_gate_not_simulated`; harness/c01.py oracle class `wide-gate`). -/
 theorem logic_sim_end_to_end_all_circuits {α} [Inhabited α] (tbl : List PrefixRow) (net : Net) (order : List Nat)
     (capsIn : Nat → Nat) (capsMin : Nat) (reuse : Bool)
     (hwf : net.wfB = true) (ho : orderOKB net order = true) (hr : readsDrivenB tbl net order = true) (hpos : 0 < capsMin)
+    (_har : net.arityOKB = true)
     (f : Nat → List α → α) (m0 : Int → α) (env0 : Nat → α)
     (h0 : ∀ x ∈ (simopsMap tbl net order false capsIn capsMin reuse).tracked,
       (∀ o ∈ (simopsMap tbl net order false capsIn capsMin reuse).ops, o.out ≠ x) →
@@ -215,6 +228,7 @@ theorem logic_sim_end_to_end_all_circuits {α} [Inhabited α] (tbl : List Prefix
     f m0 env0 h0 val hval
 
 /-- non-vacuity of (4e): `demoNet` satisfies the hypotheses and the model's tables are the real tables `demoMap` -/
+example : demoNet.arityOKB = true := by decide +kernel
 example : readsDrivenB Gen.kindPrefixes demoNet [0, 2, 1, 3, 4, 5, 6] = true ∧
     (simopsMap Gen.kindPrefixes demoNet [0, 2, 1, 3, 4, 5, 6] false (fun _ => 1) 1 true).locs = demoMap.locs ∧
     (simopsMap Gen.kindPrefixes demoNet [0, 2, 1, 3, 4, 5, 6] false (fun _ => 1) 1 true).cLen = demoMap.cLen := by
@@ -329,6 +343,46 @@ theorem nextState_unique {α} (tbl : List PrefixRow) (net : Net) (order : List N
     (hval : SolvesJ (Jt net) sem ((genOps tbl net order false).map OpRow.toOp) (sToC (tabsOf net false) d a env) val) :
     Cycle.nextState sem (sigOps tbl net order false) net false merge d env a = nextRow net false merge val a :=
   nextRow_congr net false merge _ _ a fun p => sol_eq_val tbl net order hwf ho sem _ val hval _ (capSig_notJunk net hwf p)
+
+open KV.Cycle in
+/-- (7s) **`nextState_is_spec`: the next-state function of `cycle_iter` IS the independent specification** (audit item C01).
+`KV.nextStateFrom net z v a` (Model/Net.lean, written without reference to op rows, memory or index tables): ports keep their value, a
+state element takes what the labelling `v` of the lines gives its data line, a state element with OPEN data pin takes the constant
+`z` (constant 0 — the documented reading of an unconnected pin; the code since the D9 repair copies the constant-0 slot; the earlier
+version of the specification kept the old value, which the code never did).  For every well-formed netlist, every topological order
+that schedules every line (`forksOKB`, `linesDrivenB`: decidable, evaluated per case), every memory `env` and assignment `a`: with `e0`
+the memory after `s_to_c` and `v` ANY labelling that the specification's acceptance check `consistentB` (gate-by-gate equations
+`lineEq` over the documented formulas `prim2`) accepts for the assignment in the (P)PI slots of `e0`, the simulator's next assignment
+(2-valued `c_prop` — the njit path `semL2n`; the other two paths compute the same signals, `sim2_paths` — `c_to_s`, `s_ppo_to_ppi`) is
+`nextStateFrom`.  The constant `z` is the content of the constant slot (`cycle_zero_slot`: 0 on every real memory). -/
+theorem nextState_is_spec (net : Net) (order : List Nat) (hwf : net.wfB = true) (ho : orderOKB net order = true)
+    (hfk : forksOKB net order = true) (hall : linesDrivenB Gen.kindPrefixes net order = true)
+    (d : Bool) (env : Nat → Bool) (a : List Bool) (v : Array Bool)
+    (hc : consistentB net (sToC (tabsOf net false) d a env net.idx.zero) (!·) prim2
+            (fun p => sToC (tabsOf net false) d a env (net.idx.ppi + p)) v = true) :
+    Cycle.nextState (fun op => semL2n op.code) (sigOps Gen.kindPrefixes net order false) net false mergeCopy d env a =
+      nextStateFrom net (sToC (tabsOf net false) d a env net.idx.zero) v a :=
+  nextState_is_spec_main net order hwf ho hfk hall d env a v hc
+
+/-- the driver's executable next-state function (`eval2`, the oracle's expected values for `cycle(k)`) is `nextStateFrom` of the
+labelling its evaluator `evalAll` returns — which it submits to `consistentB` on every request (answer flag `!`) -/
+theorem nextState_eq_from (net : Net) (a : Nat → Bool) (j : Nat) (hj : j < net.sNodes.length) :
+    KV.nextState net a j =
+      (nextStateFrom net false (evalAll net false (!·) prim2 a) ((List.range net.sNodes.length).map a)).getD j false :=
+  nextState_eq_from_main net a j hj
+
+/-- non-vacuity: `q = DFF(open)`, `z = NOT(q)` observed at an output port, input `a` unused: from state 1 the next state is 0 -/
+def openNet : Net :=
+  { nodes := #[⟨"input", [], [some 0]⟩, ⟨"__fork__", [some 0], []⟩, ⟨"DFF", [], [some 1]⟩, ⟨"__fork__", [some 1], [some 2]⟩,
+               ⟨"INV1", [some 2], [some 3]⟩, ⟨"output", [some 3], []⟩],
+    lines := #[⟨0, 0, 1, 0⟩, ⟨2, 0, 3, 0⟩, ⟨3, 0, 4, 0⟩, ⟨4, 0, 5, 0⟩],
+    io := [0, 5] }
+example : openNet.wfB = true ∧ orderOKB openNet [0, 2, 1, 3, 4, 5] = true ∧ forksOKB openNet [0, 2, 1, 3, 4, 5] = true ∧
+    linesDrivenB Gen.kindPrefixes openNet [0, 2, 1, 3, 4, 5] = true ∧ openNet.sNodes = [0, 5, 2] ∧ openNet.arityOKB = true := by
+  decide +kernel
+example : consistentB openNet false (!·) prim2 (fun p => p == 2) (evalAll openNet false (!·) prim2 (fun p => p == 2)) = true ∧
+    nextStateFrom openNet false (evalAll openNet false (!·) prim2 (fun p => p == 2)) [false, false, true] = [false, false, false] := by
+  decide +kernel
 
 open KV.Cycle in
 /-- (7'') the form the correspondence runs evaluate: the compiled driver runs `cycleKA` (memory as an array of `c_locs_len`
